@@ -80,6 +80,7 @@ pub fn run_history(rng: Rng, profile: Profile, opts: &HistOpts, out: &mut Outcom
                 break;
             }
             gen.remember(rig.model());
+            gen.max_real_serial = rig.cands[0].bind.max_real_call_serial();
             let Some(inp) = gen.next(rig.model()) else { continue };
             match &inp {
                 Input::Connect(v) => {
